@@ -384,4 +384,224 @@ theorem genStmt_rel (hrel : LkRel sc t1 t2) (s : AStmt) :
 
 end
 
+/-! ### `CreateSymbols` -/
+
+/-- Facts about a table built by `CreateSymbols`: every symbol records its key; a key of a
+    non-global scope belongs to a formal or local of a procedure with that name. -/
+structure TblInv (names : String → List String → Prop) (t : SymTab) : Prop where
+  scope : ∀ k a, t.find? k = some a → a.scope = k.1
+  local_ : ∀ k, (t.find? k).isSome = true → k.1 ≠ "" → ∃ ns, names k.1 ns ∧ k.2 ∈ ns
+
+theorem insert_ok (t : SymTab) (k : SymKey) (s : Symbol) (t' : SymTab) (h : t.insert k s = .ok t') :
+    t.find? k = none ∧ t' = (k, s) :: t := by
+  unfold SymTab.insert at h
+  cases hf : t.find? k with
+  | some x => rw [hf] at h; simp at h
+  | none => rw [hf] at h; simp only [Except.ok.injEq] at h; exact ⟨rfl, h.symm⟩
+
+theorem insert_rel {D : SymKey → Prop} {t1 t2 : SymTab} (h : TRel D t1 t2) (k : SymKey) (s1 s2 : Symbol) (hs : SEq s1 s2)
+    (hD : D k → s1.stackOffset = s2.stackOffset) :
+    (∃ t1' t2', t1.insert k s1 = .ok t1' ∧ t2.insert k s2 = .ok t2' ∧ TRel D t1' t2') ∨
+    (∃ e, t1.insert k s1 = .error e ∧ t2.insert k s2 = .error e) := by
+  unfold SymTab.insert
+  have hd := h.dom k
+  cases h1 : t1.find? k with
+  | some a =>
+    cases h2 : t2.find? k with
+    | some b => exact Or.inr ⟨_, rfl, rfl⟩
+    | none => rw [h1, h2] at hd; simp at hd
+  | none =>
+    cases h2 : t2.find? k with
+    | some b => rw [h1, h2] at hd; simp at hd
+    | none =>
+      refine Or.inl ⟨_, _, rfl, rfl, ?_, ?_⟩
+      · intro k'
+        rw [find?_cons, find?_cons]
+        by_cases hk : k = k'
+        · rw [if_pos hk, if_pos hk]; rfl
+        · rw [if_neg hk, if_neg hk]; exact h.dom k'
+      · intro k' a b ha hb
+        rw [find?_cons] at ha hb
+        by_cases hk : k = k'
+        · rw [if_pos hk] at ha hb
+          simp only [Option.some.injEq] at ha hb
+          subst ha; subst hb; subst hk
+          exact ⟨hs, hD⟩
+        · rw [if_neg hk] at ha hb
+          exact h.rel k' a b ha hb
+
+/-- Results that agree: related values or the same diagnostic. -/
+def ERel {α : Type} (R : α → α → Prop) : Except CDiag α → Except CDiag α → Prop
+  | .ok a, .ok b => R a b
+  | .error e, .error f => e = f
+  | _, _ => False
+
+def NoD : SymKey → Prop := fun _ => False
+
+theorem TblInv.cons {names : String → List String → Prop} {t : SymTab} (h : TblInv names t) (k : SymKey) (s : Symbol)
+    (hs : s.scope = k.1) (hl : k.1 ≠ "" → ∃ ns, names k.1 ns ∧ k.2 ∈ ns) : TblInv names ((k, s) :: t) := by
+  constructor
+  · intro k' a ha
+    rw [find?_cons] at ha
+    by_cases hk : k = k'
+    · rw [if_pos hk] at ha
+      simp only [Option.some.injEq] at ha
+      subst ha; subst hk; exact hs
+    · rw [if_neg hk] at ha; exact h.scope k' a ha
+  · intro k' hk' hne
+    rw [find?_cons] at hk'
+    by_cases hk : k = k'
+    · subst hk; exact hl hne
+    · rw [if_neg hk] at hk'; exact h.local_ k' hk' hne
+
+theorem createGlobals_rel (j1 j2 : Int) (names : String → List String → Prop) :
+    ∀ (ds : List X.Decl) (i : Nat) (t1 t2 : SymTab), TRel NoD t1 t2 → TblInv names t1 →
+      ERel (fun a b => TRel NoD a b ∧ TblInv names a) (createGlobalsJ j1 ds i t1) (createGlobalsJ j2 ds i t2) := by
+  intro ds
+  induction ds with
+  | nil => intro i t1 t2 h hi; exact ⟨h, hi⟩
+  | cons d ds ih =>
+    intro i t1 t2 h hi
+    unfold createGlobalsJ
+    rcases insert_rel h ("", d.name)
+        { type := declSymType d, node := .gdecl i, isValDecl := declIsVal d, scope := "", name := d.name, stackOffset := j1 }
+        { type := declSymType d, node := .gdecl i, isValDecl := declIsVal d, scope := "", name := d.name, stackOffset := j2 }
+        ⟨rfl, rfl, rfl, rfl, rfl, rfl, rfl⟩ (fun hd => absurd hd id) with ⟨t1', t2', e1, e2, hr⟩ | ⟨e, e1, e2⟩
+    · rw [e1, e2]
+      simp only [bind, Except.bind]
+      obtain ⟨_, ht⟩ := insert_ok _ _ _ _ e1
+      exact ih (i + 1) t1' t2' hr (by rw [ht]; exact hi.cons _ _ rfl (fun hne => absurd rfl hne))
+    · rw [e1, e2]
+      simp only [bind, Except.bind, ERel]
+
+theorem createFormals_rel (j1 j2 : Int) (names : String → List String → Prop) (p : Nat) (scope : String)
+    (ns : List String) (hns : scope ≠ "" → names scope ns) :
+    ∀ (fs : List X.Formal) (i : Nat) (t1 t2 : SymTab), TRel NoD t1 t2 → TblInv names t1 →
+      (∀ f ∈ fs, f.name ∈ ns) →
+      ERel (fun a b => TRel NoD a b ∧ TblInv names a) (createFormalsJ j1 p scope fs i t1) (createFormalsJ j2 p scope fs i t2) := by
+  intro fs
+  induction fs with
+  | nil => intro i t1 t2 h hi _; exact ⟨h, hi⟩
+  | cons f fs ih =>
+    intro i t1 t2 h hi hmem
+    unfold createFormalsJ
+    rcases insert_rel h (scope, f.name)
+        { type := formalSymType f, node := .formal p i, isValDecl := false, scope := scope, name := f.name, stackOffset := j1 }
+        { type := formalSymType f, node := .formal p i, isValDecl := false, scope := scope, name := f.name, stackOffset := j2 }
+        ⟨rfl, rfl, rfl, rfl, rfl, rfl, rfl⟩ (fun hd => absurd hd id) with ⟨t1', t2', e1, e2, hr⟩ | ⟨e, e1, e2⟩
+    · rw [e1, e2]
+      simp only [bind, Except.bind]
+      obtain ⟨_, ht⟩ := insert_ok _ _ _ _ e1
+      exact ih (i + 1) t1' t2' hr
+        (by rw [ht]; exact hi.cons _ _ rfl (fun hne => ⟨ns, hns hne, hmem f (by simp)⟩))
+        (fun g hg => hmem g (List.mem_cons_of_mem _ hg))
+    · rw [e1, e2]
+      simp only [bind, Except.bind, ERel]
+
+theorem createLocals_rel (j1 j2 : Int) (names : String → List String → Prop) (p : Nat) (scope : String)
+    (ns : List String) (hns : scope ≠ "" → names scope ns) :
+    ∀ (ds : List X.Decl) (i : Nat) (t1 t2 : SymTab), TRel NoD t1 t2 → TblInv names t1 →
+      (∀ d ∈ ds, d.name ∈ ns) →
+      ERel (fun a b => TRel NoD a b ∧ TblInv names a) (createLocalsJ j1 p scope ds i t1) (createLocalsJ j2 p scope ds i t2) := by
+  intro ds
+  induction ds with
+  | nil => intro i t1 t2 h hi _; exact ⟨h, hi⟩
+  | cons d ds ih =>
+    intro i t1 t2 h hi hmem
+    unfold createLocalsJ
+    rcases insert_rel h (scope, d.name)
+        { type := declSymType d, node := .ldecl p i, isValDecl := declIsVal d, scope := scope, name := d.name, stackOffset := j1 }
+        { type := declSymType d, node := .ldecl p i, isValDecl := declIsVal d, scope := scope, name := d.name, stackOffset := j2 }
+        ⟨rfl, rfl, rfl, rfl, rfl, rfl, rfl⟩ (fun hd => absurd hd id) with ⟨t1', t2', e1, e2, hr⟩ | ⟨e, e1, e2⟩
+    · rw [e1, e2]
+      simp only [bind, Except.bind]
+      obtain ⟨_, ht⟩ := insert_ok _ _ _ _ e1
+      exact ih (i + 1) t1' t2' hr
+        (by rw [ht]; exact hi.cons _ _ rfl (fun hne => ⟨ns, hns hne, hmem d (by simp)⟩))
+        (fun g hg => hmem g (List.mem_cons_of_mem _ hg))
+    · rw [e1, e2]
+      simp only [bind, Except.bind, ERel]
+
+/-- The names a procedure declares in its scope. -/
+def procNames (p : X.Proc) : List String := p.formals.map X.Formal.name ++ p.locals.map X.Decl.name
+
+theorem createProcs_rel (j1 j2 : Int) (all : List X.Proc) :
+    ∀ (ps : List X.Proc) (i : Nat) (t1 t2 : SymTab), (∀ p ∈ ps, p ∈ all) → TRel NoD t1 t2 →
+      TblInv (fun sc ns => ∃ q ∈ all, q.name = sc ∧ ns = procNames q) t1 →
+      ERel (fun a b => TRel NoD a b ∧ TblInv (fun sc ns => ∃ q ∈ all, q.name = sc ∧ ns = procNames q) a)
+        (createProcsJ j1 ps i t1) (createProcsJ j2 ps i t2) := by
+  intro ps
+  induction ps with
+  | nil => intro i t1 t2 _ h hi; exact ⟨h, hi⟩
+  | cons p ps ih =>
+    intro i t1 t2 hall h hi
+    have hp : p ∈ all := hall p (by simp)
+    unfold createProcsJ
+    rcases insert_rel h ("", p.name)
+        { type := if p.isFunc then .func else .proc, node := .proc i, isValDecl := false, scope := "", name := p.name, stackOffset := j1 }
+        { type := if p.isFunc then .func else .proc, node := .proc i, isValDecl := false, scope := "", name := p.name, stackOffset := j2 }
+        ⟨rfl, rfl, rfl, rfl, rfl, rfl, rfl⟩ (fun hd => absurd hd id) with ⟨t1', t2', e1, e2, hr⟩ | ⟨e, e1, e2⟩
+    · rw [e1, e2]
+      simp only [bind, Except.bind]
+      obtain ⟨_, ht⟩ := insert_ok _ _ _ _ e1
+      have hi1 : TblInv (fun sc ns => ∃ q ∈ all, q.name = sc ∧ ns = procNames q) t1' := by
+        rw [ht]; exact hi.cons _ _ rfl (fun hne => absurd rfl hne)
+      have hf := createFormals_rel j1 j2 _ i p.name (procNames p) (fun _ => ⟨p, hp, rfl, rfl⟩) p.formals 0 t1' t2' hr hi1
+        (fun f hf => List.mem_append_left _ (List.mem_map.mpr ⟨f, hf, rfl⟩))
+      cases h3 : createFormalsJ j1 i p.name p.formals 0 t1' with
+      | error e3 =>
+        cases h4 : createFormalsJ j2 i p.name p.formals 0 t2' with
+        | error e4 => rw [h3, h4] at hf; simp only [ERel] at hf ⊢; exact hf
+        | ok v => rw [h3, h4] at hf; exact absurd hf id
+      | ok u1 =>
+        cases h4 : createFormalsJ j2 i p.name p.formals 0 t2' with
+        | error e4 => rw [h3, h4] at hf; exact absurd hf id
+        | ok u2 =>
+          rw [h3, h4] at hf
+          obtain ⟨hr2, hi2⟩ := hf
+          simp only
+          have hl := createLocals_rel j1 j2 _ i p.name (procNames p) (fun _ => ⟨p, hp, rfl, rfl⟩) p.locals 0 u1 u2 hr2 hi2
+            (fun d hd => List.mem_append_right _ (List.mem_map.mpr ⟨d, hd, rfl⟩))
+          cases h5 : createLocalsJ j1 i p.name p.locals 0 u1 with
+          | error e5 =>
+            cases h6 : createLocalsJ j2 i p.name p.locals 0 u2 with
+            | error e6 => rw [h5, h6] at hl; simp only [ERel] at hl ⊢; exact hl
+            | ok v => rw [h5, h6] at hl; exact absurd hl id
+          | ok w1 =>
+            cases h6 : createLocalsJ j2 i p.name p.locals 0 u2 with
+            | error e6 => rw [h5, h6] at hl; exact absurd hl id
+            | ok w2 =>
+              rw [h5, h6] at hl
+              obtain ⟨hr3, hi3⟩ := hl
+              simp only
+              exact ih (i + 1) w1 w2 (fun q hq => hall q (List.mem_cons_of_mem _ hq)) hr3 hi3
+    · rw [e1, e2]
+      simp only [bind, Except.bind, ERel]
+
+theorem trel_nil : TRel NoD [] [] := ⟨fun _ => rfl, fun k a b h _ => by simp [SymTab.find?] at h⟩
+
+theorem tblInv_nil (names : String → List String → Prop) : TblInv names [] :=
+  ⟨fun k a h => by simp [SymTab.find?] at h, fun k h _ => by simp [SymTab.find?] at h⟩
+
+/-- **`CreateSymbols`** from two junk values: the same diagnostic, or tables equal up to
+    `stackOffset` whose local keys belong to the procedures of the program. -/
+theorem createSymbols_rel (j1 j2 : Int) (P : X.Program) :
+    ERel (fun a b => TRel NoD a b ∧ TblInv (fun sc ns => ∃ q ∈ P.procs, q.name = sc ∧ ns = procNames q) a)
+      (createSymbolsJ j1 P) (createSymbolsJ j2 P) := by
+  unfold createSymbolsJ
+  have hg := createGlobals_rel j1 j2 (fun sc ns => ∃ q ∈ P.procs, q.name = sc ∧ ns = procNames q) P.globals 0 [] []
+    trel_nil (tblInv_nil _)
+  cases h1 : createGlobalsJ j1 P.globals 0 [] with
+  | error e1 =>
+    cases h2 : createGlobalsJ j2 P.globals 0 [] with
+    | error e2 => rw [h1, h2] at hg; simp only [ERel, bind, Except.bind] at hg ⊢; exact hg
+    | ok v => rw [h1, h2] at hg; exact absurd hg id
+  | ok u1 =>
+    cases h2 : createGlobalsJ j2 P.globals 0 [] with
+    | error e2 => rw [h1, h2] at hg; exact absurd hg id
+    | ok u2 =>
+      rw [h1, h2] at hg
+      simp only [bind, Except.bind]
+      exact createProcs_rel j1 j2 P.procs P.procs 0 u1 u2 (fun _ h => h) hg.1 hg.2
+
 end Hex.Xcmp
